@@ -45,14 +45,17 @@ def install_tap(ctx):
         before = copy.deepcopy(cost_matrix)
         out = orig(self, cost_matrix)
         TAP['solves'] += 1
-        prob = assign.check_matching(before, out)
-        if prob is None:
-            got = sum(before[i][j] for i, j in out)
-            opt = assign.min_cost(before)
-            if abs(got - opt) > 1e-9 * max(1.0, sum(abs(x) for r in before for x in r)):
-                prob = 'total %r, optimum %r' % (got, opt)
-        if prob is None and before != cost_matrix:
-            prob = 'caller matrix modified'
+        try:
+            prob = assign.check_matching(before, out)
+            if prob is None:
+                got = sum(before[i][j] for i, j in out)
+                opt = assign.min_cost(before)
+                if abs(got - opt) > 1e-9 * max(1.0, sum(abs(x) for r in before for x in r)):
+                    prob = 'total %r, optimum %r' % (got, opt)
+            if prob is None and before != cost_matrix:
+                prob = 'caller matrix modified'
+        except Exception as exc:  # noqa  (the monitor must never disturb the call it observes)
+            prob = 'result could not be judged: %r' % (exc,)
         if prob:
             TAP['bad'].append((before, out, prob))
         return out
